@@ -242,6 +242,8 @@ Definition set_line (st : state) (l : Z) : state :=
   | f :: tl => set_stack st ({| f_kind := f_kind f; f_this := f_this f; f_ret := f_ret f; f_line := l |} :: tl)
   | [] => st
   end.
+(* the line the running frame is at (set by evalStatement before each statement) *)
+Definition cur_line (st : state) : Z := match stack st with f :: _ => f_line f | [] => 0 end.
 (* vm.UnwindCallStack(count): drop the frames that failed calls left above the given depth *)
 Definition unwind (st : state) (count : nat) : state :=
   set_stack st (skipn (length (stack st) - count) (stack st)).
